@@ -424,9 +424,12 @@ def rule_C1(ctx):
     for p in prs:
         seq = []
         for c, e, st in calls_on(p):
-            if isinstance(c.func, ast.Name) and c.func.id in CASC:
+            cn_ = c.func.id if isinstance(c.func, ast.Name) else None
+            if cn_ is not None and cn_ not in CASC and cn_ in e and hasattr(e[cn_], "key") and e[cn_].key() in CASC:
+                cn_ = e[cn_].key()  # a local holding the parser class
+            if cn_ in CASC:
                 ev = evaluator(ctx, di, e)
-                seq.append((c.func.id, [ev.ev(a).key() for a in c.args], ev.ev(c).key(), c))
+                seq.append((cn_, [ev.ev(a).key() for a in c.args], ev.ev(c).key(), c))
         names = [x[0] for x in seq]
         st_ = truth_of(p, "isinstance")
         is_str = st_[0] if st_ is not None and st_[1] == f"{farg},str" else None
